@@ -8,7 +8,8 @@ GenInit == Init /\ hist = <<obs>>
 GenNext == Next /\ hist' = Append(hist, obs')
 GenSpec == GenInit /\ [][GenNext]_<<vars, hist>>
 View == <<src, inst, todo>>
-Emit == PrintT(<<"BEHAV", ToJson(hist')>>)
+\* scripted (walk) sources are chains: only the complete script is printed
+Emit == IF src.explore \/ todo' = <<>> THEN PrintT(<<"BEHAV", ToJson(hist')>>) ELSE TRUE
 FileLog == ndJsonDeserialize(IOEnv.SOURCES)
 FileSources == {FileLog[i] : i \in 1..Len(FileLog)}
 =============================================================================
